@@ -131,6 +131,22 @@ func (a *Actor) Response(id string, body []byte, hdr map[string]string) *Call {
 	return c
 }
 
+// ResponseWith is Response with a concurrent duplicate already under way on a second connection.
+func (a *Actor) ResponseWith(side *Call, id string, body []byte, hdr map[string]string) *Call {
+	r := a.w.r
+	if a.Busy() {
+		r.Troublef("%s: call started while another is outstanding", a.Who)
+	}
+	r.NextStep()
+	a.Cur = a.Conn.Start(a.Who, "POST", rtBase+"/invocation/"+id+"/response", hdr, body)
+	a.Cur.Tag = "rt-response"
+	a.Cur.Pair, side.Pair = side, a.Cur
+	a.Calls = append(a.Calls, a.Cur)
+	r.Settle()
+	a.w.absorb()
+	return a.Cur
+}
+
 func (a *Actor) Error(id string, body []byte, errType string, hdr map[string]string) *Call {
 	h := map[string]string{}
 	for k, v := range hdr {
@@ -180,6 +196,18 @@ func (a *Actor) Side(tag, method, path string, hdr map[string]string, body []byt
 	c.Tag = tag
 	a.SideCalls = append(a.SideCalls, c)
 	r.Settle()
+	return c
+}
+
+// SideStart starts a call on a second connection without waiting for quiescence: the caller issues another
+// call in the same step.
+func (a *Actor) SideStart(tag, method, path string, hdr map[string]string, body []byte) *Call {
+	r := a.w.r
+	conn := r.Dial(RapiAddr)
+	a.P.Attach(conn)
+	c := conn.Start(a.Who+"+", method, path, hdr, body)
+	c.Tag = tag
+	a.SideCalls = append(a.SideCalls, c)
 	return c
 }
 
@@ -288,6 +316,19 @@ func (w *World) absorb() {
 						a.CurInv.AnswerKind = "oversize"
 					}
 					a.CurInv.AnswerStep = c.EndStep
+				}
+				if id == a.CurReqID {
+					a.CurReqID = ""
+					a.st = "answered"
+				}
+			} else if c.Status >= 400 && c.Pair != nil && c.Pair.Done && c.Pair.Err == nil && c.Pair.Status == 202 {
+				// the concurrent duplicate of this submission was the one accepted: the invocation is answered
+				parts := strings.Split(c.Path, "/")
+				id := parts[len(parts)-2]
+				if a.CurInv != nil && a.CurInv.ReqID == id && a.CurInv.AnswerKind == "" {
+					a.CurInv.Answered = c.Pair.ReqBody
+					a.CurInv.AnswerKind = strings.TrimSuffix(strings.TrimPrefix(c.Pair.Tag, "rt-"), "-dup")
+					a.CurInv.AnswerStep = c.Pair.EndStep
 				}
 				if id == a.CurReqID {
 					a.CurReqID = ""
